@@ -18,13 +18,20 @@
   * `serialize_replays_partial` – an edit-free sequence of unconditionally accepted calls (instructions with options / extra register /
     comment, align, comment, raw embed) is serialised as `section 0` followed by exactly that sequence.
 
-  Not proved (checked by correspondence / differential on every run): `serialize_replays` for label / section / typed-data calls,
-  `serialize_groups` (a section receives exactly its projection of the call sequence under section re-entry – `Spec.project` is defined
-  for it), and the byte equality Builder vs Assembler itself, which rests on the assembler (C01–C03).
+  * `serialize_replays` – every edit-free program without section re-entry (labels, bind incl. refused double binds, typed data,
+    label addresses / deltas, new sections) is serialised as `section 0 ::` the calls an Assembler accepts for the same operations.
+  * `serialize_groups`, `sections_equal_of_local` – with section re-entry every section receives exactly its projection of the directly
+    issued call sequence; any per-section-local assembler abstraction gives equal results.
+
+  Not proved (differential on every run): `embed_const_pool` inside the two theorems above (it is align + bind + data), and the byte
+  equality Builder vs Assembler itself, which rests on the assembler (C01–C03).
 -/
 import AsmjitVerif.Lemmas.C08Ops
 import AsmjitVerif.Lemmas.C08Sim
 import AsmjitVerif.Lemmas.C08Replay
+import AsmjitVerif.Lemmas.C08Replay2
+import AsmjitVerif.Lemmas.C08Groups
+import AsmjitVerif.Lemmas.C08Local
 
 namespace AsmjitVerif.Props.C08
 open AsmjitVerif.Builder
@@ -165,6 +172,82 @@ example : ∀ op ∈ [Op.opts 0x4001, .extra "k1", .inst 789 ["a", "b", "c", "d"
   rcases hop with rfl | rfl | rfl | rfl | rfl <;> simp [Simple]
 example : callsOf {} [Op.opts 0x4001, .extra "k1", .inst 789 ["a", "b", "c", "d", "-", "-"], .align 0 16, .inst 1 ["-", "-", "-", "-", "-", "-"]] =
     [.inst 789 0x4000 "k1" "-" ["a", "b", "c", "d", "-", "-"], .align 0 16, .inst 1 0 "-" "-" ["-", "-", "-", "-", "-", "-"]] := by decide
+
+/-! ## serialize_replays and serialize_groups for label, section and typed-data calls -/
+
+/-- `serialize_replays`: an edit-free program (instructions, labels, bind, align, raw and typed data, label addresses and deltas, comments,
+    section switches that never go back to a section entered before) is serialised as `section 0` followed by exactly the calls an
+    Assembler accepts when the same operations are issued to it directly (`Spec.arun`, Spec/BuilderCalls.lean: written from the
+    Assembler's call-time rules, no nodes, no lists).  `AdmAll` = no node-list editing, no embed_const_pool, no section re-entry. -/
+theorem serialize_replays (ops : List Op) (r : Nat) (h : AdmAll { regSize := r } ops) :
+    serialize (run (Builder.St.init r) ops) = .section 0 :: (Spec.arun { regSize := r } ops).out := by
+  rw [edit_semantics]
+  exact (J_run ops _ _ (J_init r) h).lin
+
+/-- `serialize_groups`: with section re-entry the Builder regroups its nodes by section, but every section still receives exactly the
+    calls that were issued while it was current, in order: the per-section projection of what `serialize_to` issues equals the
+    per-section projection of the directly issued call sequence - for EVERY sequence of emitter calls (no editing, no embed_const_pool). -/
+theorem serialize_groups (ops : List Op) (r : Nat) (h : CallsOnly ops) (s : Nat) :
+    Spec.project s 0 (serialize (run (Builder.St.init r) ops)) =
+      Spec.project s 0 (.section 0 :: (Spec.arun { regSize := r } ops).out) := by
+  rw [edit_semantics]
+  obtain ⟨z, g⟩ := G_run ops _ _ _ (G_init r) h
+  exact G_project _ _ z g s
+
+/-- consequence for any assembler abstraction whose result for a section depends only on that section's projection of the call sequence
+    (explicit hypothesis `hloc`; it holds for buffers of label-reference-free code and for label offsets, it does NOT hold for relocation
+    records of cross-section `embed_label_delta`, see notes/C08.md): Builder and direct assembling agree section by section. -/
+theorem sections_equal_of_local {β : Type} (asm : List Call → Nat → β)
+    (hloc : ∀ s cs cs', Spec.project s 0 cs = Spec.project s 0 cs' → asm cs s = asm cs' s)
+    (ops : List Op) (r : Nat) (h : CallsOnly ops) (s : Nat) :
+    asm (serialize (run (Builder.St.init r) ops)) s = asm (.section 0 :: (Spec.arun { regSize := r } ops).out) s :=
+  hloc s _ _ (serialize_groups ops r h s)
+
+/-! ### the locality hypothesis against the CodeHolder model (Model/CodeHolder.lean, Model/Prog.lean of C03/C04)
+
+  Full-strength target: for every call sequence the final sections, label positions and relocation records of the CodeHolder model
+  depend only on the per-section projections.  That is FALSE for relocation-carrying calls (open finding C08-K2, `label_delta_witness`);
+  it is proved for label-reference-free code (`codeholder_data_local`). -/
+
+/-- discharged: section / embed / zero-align sequences - every section buffer of the CodeHolder model is determined by that section's own
+    projection of the sequence, however the sections were interleaved -/
+theorem codeholder_data_local (ops ops' : List CodeHolder.Op) (st : CodeHolder.State) (i : Nat)
+    (hd : ∀ op ∈ ops, CodeHolder.DataOp op = true) (hd' : ∀ op ∈ ops', CodeHolder.DataOp op = true)
+    (hc : st.cur < st.secs.length) (ha : st.addrTabSec = none)
+    (hp : CodeHolder.projOps i st.secs.length st.cur ops = CodeHolder.projOps i st.secs.length st.cur ops') :
+    CodeHolder.bufOf (CodeHolder.run st ops) i = CodeHolder.bufOf (CodeHolder.run st ops') i :=
+  CodeHolder.data_sections_equal ops ops' st i hd hd' hc ha hp
+
+/-- refuted at the witness of finding C08-K2: the same calls interleaved as issued (A) and grouped by section as the Builder serialises
+    them (B) have the same per-section projections but leave different bytes (and 1 vs 0 relocation records) in section 1 -/
+theorem label_delta_witness :
+    CodeHolder.bufOf (CodeHolder.run (CodeHolder.State.init .x64 CodeHolder.noBase) CodeHolder.deltaProgA) 1 ≠
+    CodeHolder.bufOf (CodeHolder.run (CodeHolder.State.init .x64 CodeHolder.noBase) CodeHolder.deltaProgB) 1 ∧
+    (CodeHolder.run (CodeHolder.State.init .x64 CodeHolder.noBase) CodeHolder.deltaProgA).relocs.length = 1 ∧
+    (CodeHolder.run (CodeHolder.State.init .x64 CodeHolder.noBase) CodeHolder.deltaProgB).relocs.length = 0 := by
+  decide
+
+example : ∀ i, CodeHolder.projOps i 2 0 (CodeHolder.deltaProgA.drop 3) = CodeHolder.projOps i 2 0 (CodeHolder.deltaProgB.drop 3) := by
+  intro i
+  match i with
+  | 0 => rfl
+  | 1 => rfl
+  | n + 2 => simp [CodeHolder.deltaProgA, CodeHolder.deltaProgB, CodeHolder.projOps]
+
+-- non-vacuity: labels, typed data, a new section, then re-entry into section 0
+def sampleCalls : List Op :=
+  [.newlabel, .newsection, .bind 0, .data 38 2 1 "0102030405060708", .elabel 0 8, .section 1, .embed "aa", .bind 0, .section 0, .align 0 4]
+
+example : CallsOnly sampleCalls := by
+  intro op hop
+  simp [sampleCalls] at hop
+  rcases hop with rfl | rfl | rfl | rfl | rfl | rfl | rfl | rfl | rfl | rfl <;> simp [Spec.isEdit]
+example : (Spec.arun { regSize := 8 } sampleCalls).out =
+    [.bind 0, .data 38 2 1 "0102030405060708", .elabel 0 8, .section 1, .data 35 1 1 "aa", .section 0, .align 0 4] := by decide
+example : serialize (run (Builder.St.init 8) sampleCalls) =
+    [.section 0, .bind 0, .data 38 2 1 "0102030405060708", .elabel 0 8, .align 0 4, .section 1, .data 35 1 1 "aa"] := by decide
+example : AdmAll { regSize := 8 } (sampleCalls.take 8) := by
+  simp [sampleCalls, AdmAll, Adm, Spec.astep, Spec.isEdit, Spec.ASt.emit, typeModelled, typeSize, sizeOk]
 
 -- an operation-level history: two sections, re-entry, an instruction with options/extra register/comment, a move, a range removal
 def sampleOps : List Op :=
